@@ -233,7 +233,7 @@ def gen_request(rng, endpoint, **over):
     # a linear mean needs a non-collinear design: at least as many points as terms (the library raises ValueError
     # otherwise), no one-hot blocks (they sum to the constant column), no filtered/duplicated rows
     mean_type = "constant"
-  parallelism = rng.choice(["constant_liar", "constant_liar", "qei"])
+  parallelism = over.get("parallelism") or rng.choice(["constant_liar", "constant_liar", "qei"])
   num_to_sample = over.get("num_to_sample", rng.choice([1, 1, 2, 3]))
   if parallelism == "qei" and pending and not task_options and endpoint in ("gp_next", "search_next"):
     num_to_sample = 1  # the library caps qEI suggestions at one
